@@ -27,46 +27,100 @@ Theorem C11_digits : forall x fmt, WF x -> dform x = Ffinite -> (fmt = 101 \/ fm
 Proof. exact digits_e. Qed.
 Print Assumptions C11_digits.
 
-(* Round trip, formats 'e' and 'E': for every canonical finite x and every
-   receiver z whose precision (34 if 0) is at least MinPrec x, under any
-   rounding mode of z, Parse (Text x fmt (-1)) succeeds, consumes the whole
-   string and yields a finite value with x's sign and exactly x's magnitude,
-   accuracy Exact, z's precision and mode, canonical. *)
-Theorem C11_roundtrip_e : forall x z fmt,
-  WF x -> dform x = Ffinite -> (fmt = 101 \/ fmt = 69) ->
+(* Round trip.  For every canonical finite x, every receiver z whose precision
+   (34 if 0) is at least MinPrec x, every rounding mode of z and both base
+   arguments that accept decimal literals (10 and 0), Parse (Text x fmt (-1))
+   succeeds, consumes the whole string and yields a finite value with x's sign
+   and exactly x's magnitude, accuracy Exact, z's precision and mode,
+   canonical.  One theorem per layout. *)
+Theorem C11_roundtrip_e : forall base x z fmt,
+  (base = 10 \/ base = 0) -> WF x -> dform x = Ffinite -> (fmt = 101 \/ fmt = 69) ->
   mdigits (mant x) < 4294967296 - 36 -> 0 <= prec z <= MaxPrec ->
   let p := if prec z =? 0 then DefaultDecimalPrec else prec z in
   (forall mp, MinPrec x = Some mp -> mp <= p) ->
-  exists t z', Text x fmt (-1) = Some t /\ Parse z t 10 = POk z' 10 [] /\
+  exists t z', Text x fmt (-1) = Some t /\ Parse z t base = POk z' 10 [] /\
     dform z' = Ffinite /\ neg z' = neg x /\ (mag z' == mag x)%Q /\ acc z' = Exact /\
     prec z' = p /\ dmode z' = dmode z /\ WF z'.
 Proof. exact roundtrip_e. Qed.
 Print Assumptions C11_roundtrip_e.
 
-(* The same for the 'p' format (112: "0." digits e exponent) ... *)
-Theorem C11_roundtrip_p : forall x z,
-  WF x -> dform x = Ffinite ->
+(* 'f' (102) *)
+Theorem C11_roundtrip_f : forall base x z,
+  (base = 10 \/ base = 0) -> WF x -> dform x = Ffinite ->
+  mdigits (mant x) < 2147483648 - 36 -> 0 <= prec z <= MaxPrec ->
+  let p := if prec z =? 0 then DefaultDecimalPrec else prec z in
+  (forall mp, MinPrec x = Some mp -> mp <= p) ->
+  exists t z', Text x 102 (-1) = Some t /\ Parse z t base = POk z' 10 [] /\
+    dform z' = Ffinite /\ neg z' = neg x /\ (mag z' == mag x)%Q /\ acc z' = Exact /\
+    prec z' = p /\ dmode z' = dmode z /\ WF z'.
+Proof. exact roundtrip_f. Qed.
+Print Assumptions C11_roundtrip_f.
+
+(* 'g' (103) and 'G' (71) *)
+Theorem C11_roundtrip_g : forall base x z fmt,
+  (base = 10 \/ base = 0) -> WF x -> dform x = Ffinite -> (fmt = 103 \/ fmt = 71) ->
+  mdigits (mant x) < 2147483648 - 36 -> 0 <= prec z <= MaxPrec ->
+  let p := if prec z =? 0 then DefaultDecimalPrec else prec z in
+  (forall mp, MinPrec x = Some mp -> mp <= p) ->
+  exists t z', Text x fmt (-1) = Some t /\ Parse z t base = POk z' 10 [] /\
+    dform z' = Ffinite /\ neg z' = neg x /\ (mag z' == mag x)%Q /\ acc z' = Exact /\
+    prec z' = p /\ dmode z' = dmode z /\ WF z'.
+Proof. exact roundtrip_g. Qed.
+Print Assumptions C11_roundtrip_g.
+
+(* 'p' (112: "0." digits e exponent) *)
+Theorem C11_roundtrip_p : forall base x z,
+  (base = 10 \/ base = 0) -> WF x -> dform x = Ffinite ->
   mdigits (mant x) < 4294967296 - 36 -> 0 <= prec z <= MaxPrec ->
   let p := if prec z =? 0 then DefaultDecimalPrec else prec z in
   (forall mp, MinPrec x = Some mp -> mp <= p) ->
-  exists t z', Text x 112 (-1) = Some t /\ Parse z t 10 = POk z' 10 [] /\
+  exists t z', Text x 112 (-1) = Some t /\ Parse z t base = POk z' 10 [] /\
     dform z' = Ffinite /\ neg z' = neg x /\ (mag z' == mag x)%Q /\ acc z' = Exact /\
     prec z' = p /\ dmode z' = dmode z /\ WF z'.
 Proof. exact roundtrip_p. Qed.
 Print Assumptions C11_roundtrip_p.
 
-(* ... and for the 'b' format (98: the mantissa padded to prec x digits, then
-   e exponent). *)
-Theorem C11_roundtrip_b : forall x z,
-  WF x -> dform x = Ffinite ->
+(* 'b' (98: the mantissa padded to prec x digits, then e exponent) *)
+Theorem C11_roundtrip_b : forall base x z,
+  (base = 10 \/ base = 0) -> WF x -> dform x = Ffinite ->
   mdigits (mant x) < 4294967296 - 36 -> prec x < 4294967296 - 36 -> 0 <= prec z <= MaxPrec ->
   let p := if prec z =? 0 then DefaultDecimalPrec else prec z in
   (forall mp, MinPrec x = Some mp -> mp <= p) ->
-  exists t z', Text x 98 (-1) = Some t /\ Parse z t 10 = POk z' 10 [] /\
+  exists t z', Text x 98 (-1) = Some t /\ Parse z t base = POk z' 10 [] /\
     dform z' = Ffinite /\ neg z' = neg x /\ (mag z' == mag x)%Q /\ acc z' = Exact /\
     prec z' = p /\ dmode z' = dmode z /\ WF z'.
 Proof. exact roundtrip_b. Qed.
 Print Assumptions C11_roundtrip_b.
+
+(* MarshalText / UnmarshalText (the JSON form is this text between quotes) *)
+Theorem C11_roundtrip_marshal : forall x z,
+  WF x -> dform x = Ffinite ->
+  mdigits (mant x) < 2147483648 - 36 -> 0 <= prec z <= MaxPrec ->
+  let p := if prec z =? 0 then DefaultDecimalPrec else prec z in
+  (forall mp, MinPrec x = Some mp -> mp <= p) ->
+  exists t z', MarshalText x = Some t /\ UnmarshalText z t = POk z' 10 [] /\
+    dform z' = Ffinite /\ neg z' = neg x /\ (mag z' == mag x)%Q /\ acc z' = Exact /\
+    prec z' = p /\ dmode z' = dmode z /\ WF z'.
+Proof. exact roundtrip_marshal. Qed.
+Print Assumptions C11_roundtrip_marshal.
+
+(* +-0 (whatever the stale exponent field holds) and +-Inf *)
+Theorem C11_roundtrip_zero : forall base x z,
+  (base = 10 \/ base = 0) -> dform x = Fzero ->
+  let p := if prec z =? 0 then DefaultDecimalPrec else prec z in
+  exists z', Text x 103 (-1) = Some (sign_bytes (neg x) ++ [48]) /\
+    Parse z (sign_bytes (neg x) ++ [48]) base = POk z' 10 [] /\
+    dform z' = Fzero /\ neg z' = neg x /\ acc z' = Exact /\ prec z' = p /\ dmode z' = dmode z.
+Proof. exact roundtrip_zero. Qed.
+Print Assumptions C11_roundtrip_zero.
+
+Theorem C11_roundtrip_inf : forall base x z fmt,
+  dform x = Finf ->
+  exists z', Text x fmt (-1) = Some (s_Inf_signed (neg x)) /\
+    Parse z (s_Inf_signed (neg x)) base = POk z' 0 [] /\
+    dform z' = Finf /\ neg z' = neg x /\ acc z' = Exact /\ prec z' = prec z /\ dmode z' = dmode z.
+Proof. exact roundtrip_inf. Qed.
+Print Assumptions C11_roundtrip_inf.
 
 (* the significant digits behind all formats: for every canonical finite x
    there is a digit string D with MinPrec x = |D|, last digit non-zero,
@@ -75,23 +129,37 @@ Theorem C11_sig_digits : forall x, WFfin x -> dform x = Ffinite -> exists D, Sig
 Proof. exact sig_digits. Qed.
 Print Assumptions C11_sig_digits.
 
-(* NOT CLOSED (kept with their full statements):
+(* ... and how the other formats lay those digits D out (precision -1):
+   'f': integer part f_int, fraction f_frac (D split at the exponent, zero
+   filled); 'p': "0." D e exponent; 'b': D padded to prec x digits *)
+Theorem C11_digits_f : forall x D, SigDigits x D -> dform x = Ffinite ->
+  Text x 102 (-1) = Some (sign_bytes (neg x) ++ f_int D (exp x) ++ opt_frac (f_frac D (exp x))).
+Proof. exact text_f. Qed.
+Print Assumptions C11_digits_f.
 
-   C11_roundtrip : the same statement for fmt in {f, g, G}, for
-   MarshalText (= 'g', -1) and the JSON form (MarshalText between quotes), and
-   for x = +-0 and +-Inf (where "same value" is: same form and sign).
-   Missing: the layout lemma for fmtF (integer/fraction split with zero
-   filling) and the 'g' case split (exp-1 < -4 or >= 21 -> 'e' layout, else the
-   'f' layout); the scanner side is ready (parse_efloat handles digits [. digits]
-   exponent; a variant without exponent is needed for 'f').  The ingredients
-   (sig_digits, mant_loop_digits, scanExponent_form, parse10_correct,
-   result_spec_exact) are proved in L4/ToaProofs.v and L4/ScanProofs.v.  Zero and infinity are checked by the witness below.
-   Covered by correspondence (families text-*, roundtrip-*, directed of
-   harness/props/C11.py: the implementation's own round trip is judged on
-   every generated value).
+Theorem C11_digits_p : forall x D, SigDigits x D -> dform x = Ffinite ->
+  Text x 112 (-1) = Some (sign_bytes (neg x) ++ [48] ++ opt_frac D ++ 101 :: pb_sign (exp x) :: itoa_nonneg (Z.abs (exp x))).
+Proof. exact text_p. Qed.
+Print Assumptions C11_digits_p.
 
-   C11_digits for f/g/G: same remark (for p and b the digit strings are in
-   text_p / text_b of L4/ToaProofs.v). *)
+Theorem C11_digits_b : forall x D, WFfin x -> SigDigits x D -> dform x = Ffinite ->
+  Text x 98 (-1) = Some (sign_bytes (neg x) ++ (D ++ zeros (prec x - zlen D)) ++ opt_frac [] ++
+                         101 :: pb_sign (exp x - prec x) :: itoa_nonneg (Z.abs (exp x - prec x))).
+Proof. exact text_b. Qed.
+Print Assumptions C11_digits_b.
+
+(* 'g'/'G' with precision -1 print the 'e'/'E' layout when the exponent is
+   below -4 or at least 6, else the 'f' layout *)
+Theorem C11_digits_g : forall x D, SigDigits x D -> dform x = Ffinite ->
+  Text x 103 (-1) = (if (exp x - 1 <? -4) || (6 <=? exp x - 1) then Text x 101 (-1) else Text x 102 (-1)) /\
+  Text x 71 (-1) = (if (exp x - 1 <? -4) || (6 <=? exp x - 1) then Text x 69 (-1) else Text x 102 (-1)).
+Proof. exact text_g. Qed.
+Print Assumptions C11_digits_g.
+
+(* NOT CLOSED:
+   the JSON form: json.Marshal/Unmarshal add and strip the quotes around
+   MarshalText's output (encoding/json is not modelled beyond that; L4/TRun.v
+   `unquote`); covered by correspondence (family roundtrip-marshal, format 1). *)
 
 (* non-vacuity and the special values *)
 Example C11_witness :
